@@ -567,9 +567,23 @@ FIND_LOOP = "for pattern in patterns:\n    pattern_ast = pattern_visitor.create_
 
 
 def f_entry(tfns, F):
-    if text(need(tfns, "equivalent_patterns")) != EQUIV_TEXT:
+    t = text(need(tfns, "equivalent_patterns"))
+    positional = ["patt_ast1 = pattern_visitor.create_pattern_object(pattern1, stix_version)",
+                  "patt_ast2 = pattern_visitor.create_pattern_object(pattern2, stix_version)"]
+    if t == EQUIV_TEXT:
+        F["equiv_version"] = "ByKeyword"
+    elif t[2:] == EQUIV_TEXT[2:] and t[:2] == positional:
+        # create_pattern_object(pattern, module_suffix='', module_name='', version=...): the second positional
+        # parameter is not the version
+        F["equiv_version"] = "Positional"
+    else:
         raise TranslateError("equivalent_patterns: unrecognised text")
     F["equiv_test"] = "CmpIsZero"
+    sig = need(tfns, "equivalent_patterns").args
+    sigf = need(tfns, "find_equivalent_patterns").args
+    if [a.arg for a in sig.args] != ["pattern1", "pattern2", "stix_version"] or [up(d) for d in sig.defaults] != ["DEFAULT_VERSION"] \
+            or [a.arg for a in sigf.args] != ["search_pattern", "patterns", "stix_version"] or [up(d) for d in sigf.defaults] != ["DEFAULT_VERSION"]:
+        raise TranslateError("equivalent_patterns / find_equivalent_patterns: unrecognised parameters")
     fn = need(tfns, "find_equivalent_patterns")
     t = text(fn)
     if t == FIND_HEAD + [FIND_LOOP]:
@@ -789,6 +803,8 @@ def translate(repo, _py=None):
         "(* equivalent_patterns / find_equivalent_patterns *)",
         "Definition src_equiv_test : equiv_test := %s." % F["equiv_test"],
         "Definition src_find_loop : find_loop := %s." % F["find_loop"],
+        "(* how equivalent_patterns hands stix_version to the parser (find_equivalent_patterns: exact text, by keyword) *)",
+        "Definition src_equiv_version : version_arg := %s." % F["equiv_version"],
         "",
     ]
     return "\n".join(L), {k: (v if isinstance(v, str) else list(v)) for k, v in F.items()}
